@@ -236,6 +236,9 @@ class Engine:
     def _same_graph(self, name, g, res, info, rep, pre_t):
         """the result of a JSON round trip / copy compares equal to the source and has its hash"""
         prop = {"json_roundtrip": "C15", "copy": "C10"}[name]
+        pre0 = json.loads(pre_t)[{"A": 0, "B": 1, "C": 2}[{"A": "A", "B": "B", "C": "C", "AB": "A", "BA": "B"}[info["slot"]]]]
+        if isinstance(pre0, dict) and pre0.get("odd"):
+            return
         self.same_graph_checks = getattr(self, "same_graph_checks", 0) + 1
         try:
             eq = (g == res) and (res == g)
@@ -261,10 +264,13 @@ class Engine:
 
     def _eq_hash(self, old, objs, info, rep, post_t, tags):
         """two real objects standing for one abstract state: == and equal hash."""
-        for s in SLOTS:
+        post = json.loads(post_t)
+        for s, pg in zip(SLOTS, post[:3]):
             x, y = old.objs.get(s), objs.get(s)
             if x is None or y is None:
                 continue
+            if isinstance(pg, dict) and pg.get("odd"):
+                continue        # the spec allows == / hash to refuse this graph
             self.eqhash_checks += 1
             try:
                 e1, e2 = (x == y), (y == x)
